@@ -12,7 +12,7 @@ Definition t1_reader_ok (hr0 : Z) (m d : list Z) (st : list Z * list Z * list Z)
   let '(m1, F, c) := st in
   exists L ku c1 c2 cF, wfL1 hr0 m L /\ len d <= l_cap L /\ t1_guard hr0 L d /\ length m = (ku * t1_unit hr0)%nat /\
     clean m L (t1_reader hr0) d c1 c2 cF /\
-    INV (t1_unit hr0) ku (zN L) m cF (Sall m L cF) m1 F c.
+    INV (t1_unit hr0) ku (zN L) m cF (Sall m L cF) m1 F c /\ F = m1 /\ c = m1.
 Definition t1_safe_class (hr0 : Z) (m d m' : list Z) : Prop :=
   t1_fresh hr0 m' = t1_fresh hr0 m \/ t1_fresh hr0 m' = Msg [] \/ t1_fresh hr0 m' = Msg d.
 
@@ -73,16 +73,30 @@ Lemma h_attempt m1 F c kf f : INVx m1 F c ->
   let '(r, (m2, F2, c2'), ex) := t1_attempt hr0 m1 L F c d kf f in
   m2 = apply_ws m1 ex /\ INVx m2 F2 c2' /\
   (forall i, t1_safe_class hr0 m d (apply_ws m1 (firstn i ex))) /\
-  (r = Ok tt -> t1_fresh hr0 m2 = Msg d /\ t1_capacity hr0 m2 = Some (l_cap L)) /\ (kf = None -> r = Ok tt).
+  (r = Ok tt -> t1_fresh hr0 m2 = Msg d /\ t1_capacity hr0 m2 = Some (l_cap L)) /\ (kf = None -> r = Ok tt) /\ F2 = m2 /\ c2' = m2.
 Proof.
   intros HI. unfold t1_attempt. unpack. rewrite Hwr. cbn [negb]. replace (l_cap L <? len d) with false by lia.
   assert (Hl : len m1 = len m) by (destruct HI as ([E _] & _); unfold lenok in E; unfold len; congruence).
   rewrite Hl. pose proof (h_att m1 F c kf f HI) as A.
   destruct (run_attempt u (len m) (fun x => x) m1 F c (t1_phases L d) kf f) as [[r [[T2 F2] c2']] ex].
-  destruct A as (A1 & A2 & A3 & A4 & A5 & A6).
-  split; [exact A1|]. split; [exact A3|]. split; [intro i; apply h_class, A2|]. split; [|exact A6].
+  destruct A as (A1 & A2 & A3 & A4 & A5 & A6 & A7 & A8).
+  split; [exact A1|]. split; [exact A3|]. split; [intro i; apply h_class, A2|]. split; [|split; [exact A6 | auto]].
   intro Hrok. unfold t1_fresh, t1_capacity. rewrite (A4 Hrok).
   destruct HCF as (_ & _ & _ & _ & _ & _ & _ & R & _). rewrite R. cbn [classify set_val l_rd l_val l_cap]. rewrite Hrd. auto.
+Qed.
+Lemma set_val_val1 L0 : set_val L0 (l_val L0) = L0.
+Proof. destruct L0; reflexivity. Qed.
+Lemma h_wf m1 F c : INVx m1 F c -> exists v, wfL1 hr0 m1 (set_val L v).
+Proof.
+  intros HI. assert (Hl : length m1 = length m) by (destruct HI as ([E _] & _); unfold lenok in E; congruence).
+  assert (Hsafe : SAFEx m1) by (destruct HI as (FT & _ & _ & Hm & _); split; [exact FT|]; destruct Hm as [(H & _)|[H|(H & _)]]; auto).
+  assert (Hv : exists v, t1_reader hr0 m1 = Ok (Some (set_val L v))).
+  { destruct (GH SAFE_classes d c1 c2 cF (len m) Hcap HCF h_n m1 Hsafe) as [E|[H|E]].
+    - exists (l_val L). rewrite E, set_val_val1. apply WF.
+    - exists []. apply (GH hdr0_read m1); [pose proof (len_nonneg d); lia | exact H].
+    - exists d. rewrite E. apply HCF. }
+  destruct Hv as [v Ev]. exists v. unpack. unfold wfL1. cbn [set_val l_rd l_wr l_dend l_hw l_off l_skip l_cap].
+  unfold len in *. rewrite Hl. split; [exact Ev|]. repeat split; try assumption; try lia; apply S23; assumption.
 Qed.
 End R1.
 
@@ -95,7 +109,7 @@ Proof.
   intros Hwf Hc Hd HLay Hg. destruct (t1_wf_layout_wfL hr0 m Hwf) as (L' & HL). pose proof (wfL1_layout _ _ _ _ HL HLay). subst L'.
   pose proof (wfL1_capacity hr0 m L cap HL Hc) as E. destruct (w_unit hr0 m L HL) as (_ & ku & Hku).
   destruct (h_clean hr0 m L d ku HL ltac:(lia) Hku) as (c1 & c2 & cF & HCF). exists L, ku, c1, c2, cF.
-  split; [exact HL|]. split; [lia|]. split; [exact Hg|]. split; [exact Hku|]. split; [exact HCF|].
+  split; [exact HL|]. split; [lia|]. split; [exact Hg|]. split; [exact Hku|]. split; [exact HCF|]. split; [|auto].
   eapply h_init; try eassumption; lia.
 Qed.
 
@@ -105,10 +119,10 @@ Theorem t1_attempt_reader_ok hr0 m d L m1 F c kf f : wfL1 hr0 m L -> t1_reader_o
   (forall i, t1_safe_class hr0 m d (apply_ws m1 (firstn i ex))) /\
   (r = Ok tt -> t1_fresh hr0 (fst (fst st')) = Msg d /\ t1_capacity hr0 (fst (fst st')) = Some (l_cap L)) /\ (kf = None -> r = Ok tt).
 Proof.
-  intros HL (L' & ku & c1 & c2 & cF & HL' & Hcap & Hg & Hku & HCF & HI). pose proof (wfL1_unique hr0 m L' L HL' HL). subst L'.
+  intros HL (L' & ku & c1 & c2 & cF & HL' & Hcap & Hg & Hku & HCF & HI & _ & _). pose proof (wfL1_unique hr0 m L' L HL' HL). subst L'.
   pose proof (h_attempt hr0 m L d ku HL Hcap Hg Hku c1 c2 cF HCF m1 F c kf f HI) as A.
-  destruct (t1_attempt hr0 m1 L F c d kf f) as [[r [[m2 F2] c2']] ex]. destruct A as (A1 & A3 & A4 & A5 & A6).
-  split; [exists L, ku, c1, c2, cF; auto 10|]. cbn [fst snd]. auto.
+  destruct (t1_attempt hr0 m1 L F c d kf f) as [[r [[m2 F2] c2']] ex]. destruct A as (A1 & A3 & A4 & A5 & A6 & A7 & A8).
+  split; [exists L, ku, c1, c2, cF; auto 12|]. cbn [fst snd]. auto.
 Qed.
 
 Lemma t1_attempts_ok hr0 m d L : wfL1 hr0 m L -> forall faults st, t1_reader_ok hr0 m d st -> t1_reader_ok hr0 m d (t1_attempts hr0 L d faults st).
@@ -151,4 +165,44 @@ Proof.
   pose proof (t1_attempt_reader_ok hr0 m d L m1 F c kf f HL Hok) as A.
   exists m1, F, c. split; [exact Ha|]. destruct (t1_attempt hr0 m1 L F c d kf f) as [[r st'] ex]. cbn [fst snd].
   destruct A as (_ & _ & A3 & _). split; [exact (A3 O) | exact A3].
+Qed.
+
+(* ---------------------------------------------------------------- another assignment with other data after failed attempts *)
+Lemma t1_attempt_set_val hr0 m1 L v F c d k f : t1_attempt hr0 m1 (set_val L v) F c d k f = t1_attempt hr0 m1 L F c d k f.
+Proof. reflexivity. Qed.
+Lemma t1_reader_ok_wf hr0 m d m1 F c L : wfL1 hr0 m L -> t1_reader_ok hr0 m d (m1, F, c) ->
+  exists v, wfL1 hr0 m1 (set_val L v) /\ F = m1 /\ c = m1.
+Proof.
+  intros HL (L' & ku & c1 & c2 & cF & HL' & Hcap & Hg & Hku & HCF & HI & EF & Ec). pose proof (wfL1_unique hr0 m L' L HL' HL). subst L'.
+  destruct (h_wf hr0 m L d ku HL Hcap Hku c1 c2 cF HCF m1 F c HI) as [v Hv]. exists v. auto.
+Qed.
+Lemma wfL1_wf hr0 m L : wfL1 hr0 m L -> t1_wf_layout hr0 m /\ t1_capacity hr0 m = Some (l_cap L) /\ t1_layout hr0 m = Some L.
+Proof.
+  intro H. destruct H as (Hr & Hsz & Hrd & Hwr & Hde & Hhw & Ho12 & Ho1 & S0 & S1 & S23).
+  split; [|split; [unfold t1_capacity; rewrite Hr; reflexivity | unfold t1_layout; rewrite Hr; reflexivity]].
+  unfold t1_wf_layout, t1_wf_layoutb. rewrite Hr, Hrd, Hwr, S0, S1. cbn [negb andb].
+  assert (E1 : ((Z.land hr0 15 =? 1) && (len m =? 120) || negb (Z.land hr0 15 =? 1) && (256 <=? len m) && (len m <=? 2048) && (len m mod 128 =? 0)) = true) by lia.
+  rewrite E1. cbn [andb]. destruct (Z.ltb_spec (l_cap L) 255) as [Hc|Hc].
+  - cbn [orb]. lia.
+  - destruct (S23 Hc) as [-> ->]. cbn [negb andb orb]. lia.
+Qed.
+
+Theorem t1_rewrite_safe hr0 m d1 cap L faults d2 kf f : t1_wf_layout hr0 m -> t1_capacity hr0 m = Some cap -> len d1 <= cap -> len d2 <= cap ->
+  t1_layout hr0 m = Some L -> t1_guard hr0 L d1 -> t1_guard hr0 L d2 ->
+  exists m1 F c, t1_after hr0 m d1 faults = Some (L, (m1, F, c)) /\ t1_safe_class hr0 m d1 m1 /\
+    let '(r, st', ex) := t1_attempt hr0 m1 L F c d2 kf f in
+    (forall k2, t1_safe_class hr0 m1 d2 (apply_ws m1 (firstn k2 ex))) /\
+    (kf = None -> r = Ok tt /\ t1_fresh hr0 (apply_ws m1 ex) = Msg d2 /\ t1_capacity hr0 (apply_ws m1 ex) = Some cap).
+Proof.
+  intros Hwf Hc Hd1 Hd2 HLay Hg1 Hg2. destruct (t1_after_ok hr0 m d1 cap L faults Hwf Hc Hd1 HLay Hg1) as (m1 & F & c & HL & E & Ha & Hok).
+  exists m1, F, c. split; [exact Ha|].
+  pose proof (t1_attempt_reader_ok hr0 m d1 L m1 F c (Some O) Lost HL Hok) as A0.
+  split. { destruct (t1_attempt hr0 m1 L F c d1 (Some 0%nat) Lost) as [[r0 st0] ex0]. destruct A0 as (_ & _ & A3 & _). exact (A3 O). }
+  destruct (t1_reader_ok_wf hr0 m d1 m1 F c L HL Hok) as (v & HL1 & -> & ->).
+  destruct (wfL1_wf hr0 m1 (set_val L v) HL1) as (Hwf1 & Hc1 & HLay1). cbn [set_val l_cap] in Hc1.
+  pose proof (t1_reader_ok_init hr0 m1 d2 (l_cap L) (set_val L v) Hwf1 Hc1 ltac:(lia) HLay1 Hg2) as Hok2.
+  pose proof (t1_attempt_reader_ok hr0 m1 d2 (set_val L v) m1 m1 m1 kf f HL1 Hok2) as A.
+  rewrite t1_attempt_set_val in A. destruct (t1_attempt hr0 m1 L m1 m1 d2 kf f) as [[r st'] ex].
+  destruct A as (_ & A2 & A3 & A4 & A5). split; [exact A3|]. intro Hk. specialize (A5 Hk). split; [exact A5|].
+  rewrite <- A2, <- E. apply A4, A5.
 Qed.
